@@ -135,6 +135,10 @@ def run_ops(ops, env):
             jp.rmdir()
             cfg = env["jobs"][op["var"]]
             V.W.events.append(("rmjob", op["var"], f"j{cfg.__xpm__.values.get('x', 0)}", cfg.__xpm__.job.identifier[:8]))
+        elif k == "await_state":
+            # the user script polls the state of a job (job.state) instead of waiting for it
+            job = env["jobs"][op["var"]].__xpm__.job
+            V.HUB.block_on(lambda: job.state is not None and job.state.name == op["state"])
         elif k == "wait":
             st = env["jobs"][op["var"]].__xpm__.job.wait()
             env["rec"]["waits"][op["var"]] = st.name
